@@ -190,6 +190,108 @@ def catalogue():
             yield (f"astype[{dtype}]{shape}", True, lambda op=op, shape=shape, x=x, kind=kind: (find_domain(op, dom(3, shape)), [op(x)], 3 if kind == "same" else kind))
 
 
+def eager_catalogue():
+    """G3: (label, nontrivial, thunk); thunk() -> (lazily declared output domain, eager funsor).  Unary and binary ops on
+    Tensor / Number operands of every dtype class (real, boolean, bounded integer), event shapes of rank 0-2, with and
+    without batch inputs: the eager rules must declare what the lazy term (find_domain) declares, and hold matching data."""
+    from collections import OrderedDict
+
+    import funsor.interpretations as I
+    import funsor.ops as ops
+    from funsor.domains import Bint
+    from funsor.tensor import Tensor
+    from funsor.terms import Binary, Number, Unary
+
+    def operand(dt, shape, batch, salt=0):
+        bshape = (2,) if batch else ()
+        ins = OrderedDict(i=Bint[2]) if batch else OrderedDict()
+        if dt == "real":
+            data = real_array(bshape + shape, salt)
+        elif dt == "bool":
+            data = real_array(bshape + shape, salt) > 1.0
+            return Tensor(data, ins, 2)
+        else:
+            data = int_arrays(dt, bshape + shape)[-1]
+        return Tensor(data, ins, dt)
+
+    def both(build):
+        def thunk():
+            with I.reflect:
+                lazy = build()
+            return lazy.output, build()
+
+        return thunk
+
+    kinds = ["real", "bool", 3, 5]
+    shapes = [(), (2,), (2, 3)]
+    for dt in kinds:
+        for shape in shapes:
+            for batch in (False, True):
+                tag = f"<{dt}>{shape}{'[i]' if batch else ''}"
+                for name in ["neg", "abs", "exp", "log", "sqrt", "log1p", "sigmoid", "tanh", "reciprocal", "invert"]:
+                    if (name == "invert") != (dt == "bool") or (dt in (3, 5) and name not in ("exp", "log")):
+                        continue
+                    op = getattr(ops, name)
+                    yield (f"eager:{name}{tag}", dt != "real", both(lambda op=op, dt=dt, shape=shape, batch=batch: Unary(op, operand(dt, shape, batch))))
+                nd = len(shape)
+                axes = [None] + list(range(-nd, nd)) + ([(0,), tuple(range(nd))] if nd else [])
+                for name in ["sum", "prod", "amax", "amin", "logsumexp", "mean", "std", "var", "all", "any"]:
+                    if dt != "real" and name not in ("all", "any"):
+                        continue
+                    cls = type(getattr(ops, name))
+                    for axis in axes:
+                        for keepdims in (False, True):
+                            op = cls(axis, 0, keepdims) if name in ("std", "var") else cls(axis, keepdims)
+                            yield (f"eager:{name}{tag}axis={axis},keepdims={keepdims}", True, both(lambda op=op, dt=dt, shape=shape, batch=batch: Unary(op, operand(dt, shape, batch))))
+    CMP = ["eq", "ne", "lt", "le", "gt", "ge"]
+    # the operand kinds each op is defined for (the same pairing as G1; integer floordiv is the open finding)
+    allowed = {}
+    for name in ["add", "sub", "mul", "truediv", "pow", "max", "min", "logaddexp", "mod"] + CMP:
+        allowed[name] = {("real", "real")}
+    for name in ["add", "mul", "max", "min", "mod"] + CMP:
+        allowed[name] |= {(3, 3), (3, 5), (5, 3), (5, 5)}
+    for name in ["add", "mul", "max", "min", "sub", "truediv"]:
+        allowed[name] |= {("real", 3), (3, "real"), ("real", 5), (5, "real")}
+    for name in ["and_", "or_", "xor", "eq", "ne"]:
+        allowed.setdefault(name, set()).add(("bool", "bool"))
+    for name in sorted(allowed):
+        op = getattr(ops, name)
+        for ld, rd in sorted(allowed[name], key=str):
+            for lshape, rshape in [((), ()), ((2,), ()), ((), (2,)), ((2, 3), (3,))]:
+                for lb, rb in [(False, False), (True, False), (False, True)]:
+                    tag = f"<{ld},{rd}>{lshape}{rshape}{'[i]' if lb else ''}{'[i]' if rb else ''}"
+                    yield (f"eager:{name}{tag}", True, both(lambda op=op, ld=ld, rd=rd, lshape=lshape, rshape=rshape, lb=lb, rb=rb: Binary(op, operand(ld, lshape, lb, 1), operand(rd, rshape, rb, 2))))
+            # Number operands
+            for side in ("number-left", "number-right"):
+                nd_, td = (ld, rd) if side == "number-left" else (rd, ld)
+                num = Number(1.5) if nd_ == "real" else Number(1, 2 if nd_ == "bool" else nd_)
+                yield (f"eager:{name}<{ld},{rd}>{side}", True, both(lambda op=op, num=num, td=td, side=side: Binary(op, num, operand(td, (2,), True)) if side == "number-left" else Binary(op, operand(td, (2,), True), num)))
+
+
+def check_eager_entry(label, thunk):
+    from funsor.tensor import Tensor
+    from funsor.terms import Number
+    from vf.build import check_tensor_data
+
+    try:
+        declared, eager = thunk()
+    except Exception as e:
+        raise Decline("eager-catalogue-raised:" + type(e).__name__)
+    if not isinstance(eager, (Tensor, Number)):
+        raise Decline("eager-catalogue-stays-lazy")
+    if eager.output != declared:
+        raise Violation("eager-catalogue:output", f"{label}: the eager rule returns output {eager.output}, the lazy term declares {declared}")
+    err = check_tensor_data(eager)
+    if err:
+        raise Violation("eager-catalogue:data", f"{label}: {err}")
+    if isinstance(eager, Tensor):
+        kind = np.asarray(eager.data).dtype.kind
+        if declared.dtype == "real" and kind not in "f":
+            raise Violation("eager-catalogue:data-kind", f"{label}: declared real, data has dtype {np.asarray(eager.data).dtype}")
+        if declared.dtype != "real" and kind == "f":
+            raise Violation("eager-catalogue:data-kind", f"{label}: declared Bint[{declared.dtype}], data has dtype {np.asarray(eager.data).dtype}")
+
+
 def check_entry(label, thunk):
     try:
         declared, actuals, kind = thunk()
@@ -244,7 +346,8 @@ class C06(Prop):
         a = exprs(Opts(max_depth=d), None)
         b = exprs(Opts(max_depth=d, reals=True), None)
         c = exprs(Opts(max_depth=d, ops_binary=("add", "mul", "max", "min", "sub", "truediv")), (3, ()))
-        return st.one_of(a, a, b, c).map(lambda t: {"ast": t})
+        pm = exprs(Opts(reals=True, max_depth=2, deltas=True, consts=True, max_names=3), ("real", ()))
+        return st.one_of(a, a, b, c, pm).map(lambda t: {"ast": t})
 
     def describe(self, case):
         return show(case["ast"]) if isinstance(case, dict) and "ast" in case else str(case)
@@ -258,7 +361,7 @@ class C06(Prop):
 
     def extra(self, tier, shard, nshards, stt, seed):
         if isinstance(tier, str):
-            entries = list(catalogue())
+            entries = list(catalogue()) + list(eager_catalogue())
         n = 0
         for i, (label, nt, thunk) in enumerate(entries):
             if i % nshards != shard:
@@ -268,7 +371,7 @@ class C06(Prop):
             stt.evaluations += 1
             n += 1
             try:
-                check_entry(label, thunk)
+                (check_eager_entry if label.startswith("eager:") else check_entry)(label, thunk)
             except Decline as d:
                 stt.decline(d.bucket)
                 continue
@@ -291,9 +394,9 @@ class C06(Prop):
 
         if "catalogue" in case:
             label = case["catalogue"]
-            for lab, nt, thunk in catalogue():
+            for lab, nt, thunk in itertools.chain(catalogue(), eager_catalogue()):
                 if lab == label:
-                    check_entry(lab, thunk)
+                    (check_eager_entry if lab.startswith("eager:") else check_entry)(lab, thunk)
                     return
             raise Decline("unknown catalogue label")
         node = case["ast"]
